@@ -365,6 +365,18 @@ class Func(object):
                 res.extend(self.expand_cond(a, False, depth + 1))
         elif n["k"] == "un" and n["op"] == "!":
             res.extend(self.expand_cond(n["a"][0], not pol, depth + 1))
+        elif n["k"] == "bin" and n["op"] in ("==", "!=") and isinstance(pol, bool):
+            # `e == false` / `e != true` is the negation of e, `e == true` / `e != false` is e
+            for lit_i, e_i in ((1, 0), (0, 1)):
+                b = self.nodes.get(n["a"][lit_i])
+                while b is not None and b["k"] == "cast":
+                    b = self.nodes.get(b["a"][0])
+                if b is not None and b["k"] == "bool":
+                    same = (n["op"] == "==") == bool(b["v"])
+                    res.extend(self.expand_cond(n["a"][e_i], pol if same else (not pol), depth + 1))
+                    break
+        elif n["k"] == "cast":
+            res.extend(self.expand_cond(n["a"][0], pol, depth + 1)[1:])
         return res
 
     # ----- path queries ------------------------------------------------------------------------
@@ -760,7 +772,21 @@ def expr_str(f, i, depth=0):
                 return x is not None and x["k"] in ("int", "chr", "str", "null", "bool", "flt")
             if lit(a[0]) and not lit(a[1]):
                 flip = {"==": "==", "!=": "!=", "<": ">", ">": "<", "<=": ">=", ">=": "<="}
-                return "%s %s %s" % (E(a[1]), flip[op], E(a[0]))
+                a = [a[1], a[0]]
+                op = flip[op]
+            # `e == false` reads `!e`, `e != false` / `e == true` read `e`
+            rb = f.nodes.get(a[1])
+            while rb is not None and rb["k"] == "cast":
+                rb = f.nodes.get(rb["a"][0])
+            if rb is not None and rb["k"] == "bool" and op in ("==", "!="):
+                positive = (op == "==") == bool(rb["v"])
+                inner = E(a[0])
+                if positive:
+                    return inner
+                ln = f.nodes.get(a[0])
+                while ln is not None and ln["k"] == "cast":
+                    ln = f.nodes.get(ln["a"][0])
+                return ("!%s" % inner) if ln is not None and ln["k"] in ("ref", "mem", "call", "idx") else ("!(%s)" % inner)
         return "%s %s %s" % (E(a[0]), op, E(a[1]))
     if k == "un":
         if n.get("post"):
